@@ -37,6 +37,12 @@ pub struct Scenario {
     pub restore: Vec<usize>,
     /// B runs on a thread that already analysed and dropped every file once
     pub long_lived: bool,
+    /// files removed from the project between the capturing and the restoring build
+    #[serde(default)]
+    pub absent2: Vec<usize>,
+    /// files edited between the two builds: (index, text in the restoring build); never restored
+    #[serde(default)]
+    pub edits2: Vec<(usize, String)>,
 }
 
 fn filler(i: usize) -> (String, String) {
@@ -239,7 +245,14 @@ pub fn run(sc: &Scenario) -> Outcome {
         return o;
     }
     let mut frags = BTreeMap::new();
-    for i in &sc.restore {
+    let order2: Vec<usize> = sc.order2.iter().copied().filter(|i| !sc.absent2.contains(i)).collect();
+    let mut files2 = sc.files.clone();
+    for (i, t) in &sc.edits2 {
+        if *i < files2.len() {
+            files2[*i].1 = t.clone();
+        }
+    }
+    for i in sc.restore.iter().filter(|i| !sc.absent2.contains(i) && !sc.edits2.iter().any(|e| e.0 == **i)) {
         match a.frags.get(i) {
             Some(Ok(b)) => {
                 frags.insert(*i, b.clone());
@@ -247,19 +260,19 @@ pub fn run(sc: &Scenario) -> Outcome {
             _ => o.noncacheable += 1,
         }
     }
-    let parsed_in_b: BTreeSet<usize> = (0..sc.files.len()).filter(|i| !frags.contains_key(i)).collect();
+    let parsed_in_b: BTreeSet<usize> = order2.iter().copied().filter(|i| !frags.contains_key(i)).collect();
     // The reference parses, analyses and emits everything; what is compared afterwards is
     // restricted to the files the restoring context really parsed.
     // On a long-lived thread the reference lives the same earlier life, so that the only
     // difference between the two contexts is restore-versus-parse.
-    let c = run_context(sc.files.clone(), sc.p2, sc.order2.clone(), Mode::Reference, BTreeSet::new(), sc.long_lived);
+    let c = run_context(files2.clone(), sc.p2, order2.clone(), Mode::Reference, BTreeSet::new(), sc.long_lived);
     let Some(cs) = c.state else {
         o.skipped = Some("reference-context-panicked");
         return o;
     };
     if sc.long_lived && std::env::var("FRAGSIM_OBSERVE_RESIDUE").is_ok() {
         // Not C06: does a thread that analysed and dropped the files before differ from a fresh one?
-        if let Some(fs) = run_context(sc.files.clone(), sc.p2, sc.order2.clone(), Mode::Reference, BTreeSet::new(), false).state {
+        if let Some(fs) = run_context(files2.clone(), sc.p2, order2.clone(), Mode::Reference, BTreeSet::new(), false).state {
             if fs.post1 != cs.post1 || fs.pass2 != cs.pass2 {
                 eprintln!("RESIDUE diagnostics differ after drop_file for {:?}", sc.files.iter().map(|f| f.0.clone()).collect::<Vec<_>>());
             } else if fs.emitted != cs.emitted {
@@ -267,7 +280,7 @@ pub fn run(sc: &Scenario) -> Outcome {
             }
         }
     }
-    let b = run_context(sc.files.clone(), sc.p2, sc.order2.clone(), Mode::Restore(frags.clone()), parsed_in_b.clone(), sc.long_lived);
+    let b = run_context(files2.clone(), sc.p2, order2.clone(), Mode::Restore(frags.clone()), parsed_in_b.clone(), sc.long_lived);
     let Some(bs) = b.state else {
         o.violation = Some(("panic-on-restore".into(), format!("restoring context panicked: {}", b.panic.unwrap_or_default())));
         return o;
@@ -333,6 +346,7 @@ fn corpus() -> Vec<(String, String)> {
 
 pub fn gen_scenario(seed: u64, corpus: &[(String, String)]) -> Scenario {
     let mut rng = Rng::new(seed);
+    let mut variants: BTreeMap<String, Vec<String>> = BTreeMap::new();
     let files: Vec<(String, String)> = if rng.chance(1, 3) && !corpus.is_empty() {
         // 1-3 files of the repository's testcases (all declaration kinds)
         let n = 1 + rng.below(3);
@@ -344,6 +358,9 @@ pub fn gen_scenario(seed: u64, corpus: &[(String, String)]) -> Scenario {
     } else {
         let with_tests = rng.chance(1, 6);
         let g = wgen::gen_project(&mut rng, false, with_tests);
+        for sl in g.units.iter().flat_map(|u| u.slots.iter()) {
+            variants.insert(sl.path.trim_start_matches("src/").to_string(), sl.variants.iter().map(|v| v.to_string()).collect());
+        }
         g.project.files.into_iter().map(|(k, v)| (k.trim_start_matches("src/").to_string(), v)).collect()
     };
     let n = files.len();
@@ -359,7 +376,28 @@ pub fn gen_scenario(seed: u64, corpus: &[(String, String)]) -> Scenario {
     if restore.is_empty() {
         restore.push(rng.below(n));
     }
-    Scenario { files, p1: rng.below(4), order1, p2: rng.below(4), order2, restore, long_lived: rng.chance(1, 4) }
+    let p1 = rng.below(4);
+    let p2 = rng.below(4);
+    let long_lived = rng.chance(1, 4);
+    // one build in three: some files were removed from the project in between
+    let mut absent2: Vec<usize> = if n >= 2 && rng.chance(1, 3) { (0..n).filter(|_| rng.chance(1, 3)).collect() } else { vec![] };
+    if absent2.len() == n {
+        absent2.pop();
+    }
+    // edits between the builds: another variant of the file's slot
+    let mut edits2 = vec![];
+    for (i, (name, text)) in files.iter().enumerate() {
+        if let Some(vs) = variants.get(name)
+            && vs.len() > 1
+            && rng.chance(1, 3)
+        {
+            let others: Vec<&String> = vs.iter().filter(|v| *v != text).collect();
+            if !others.is_empty() {
+                edits2.push((i, others[rng.below(others.len())].clone()));
+            }
+        }
+    }
+    Scenario { files, p1, order1, p2, order2, restore, long_lived, absent2, edits2 }
 }
 
 fn main() {
@@ -416,7 +454,13 @@ fn main() {
         if sc.order1 != sc.order2 {
             counters.inc("context.different_file_order");
         }
-        if o.restored > 0 && (sc.p1 != sc.p2 || sc.order1 != sc.order2 || sc.long_lived) {
+        if !sc.absent2.is_empty() {
+            counters.inc("context.files_removed_between_builds");
+        }
+        if !sc.edits2.is_empty() {
+            counters.inc("context.files_edited_between_builds");
+        }
+        if o.restored > 0 && (sc.p1 != sc.p2 || sc.order1 != sc.order2 || sc.long_lived || !sc.absent2.is_empty() || !sc.edits2.is_empty()) {
             distinct.insert(simcore::fsutil::hash_u64(format!("{sc:?}").as_bytes()));
         }
         if i < 3 {
@@ -458,7 +502,7 @@ fn main() {
                 i += 1;
             }
         }
-        for simplify in 0..4 {
+        for simplify in 0..6 {
             if budget == 0 {
                 break;
             }
@@ -467,7 +511,9 @@ fn main() {
                 0 => cand.p1 = 0,
                 1 => cand.p2 = 0,
                 2 => cand.order1 = (0..cand.files.len()).collect(),
-                _ => cand.long_lived = false,
+                3 => cand.long_lived = false,
+                4 => cand.absent2.clear(),
+                _ => cand.edits2.clear(),
             }
             budget -= 1;
             if same(&cand) {
@@ -486,7 +532,7 @@ fn main() {
             exit = exit.max(2);
         }
     }
-    for p in ["fragments.restored", "context.long_lived_thread", "context.different_id_offsets", "context.different_file_order"] {
+    for p in ["fragments.restored", "context.long_lived_thread", "context.different_id_offsets", "context.different_file_order", "context.files_removed_between_builds", "context.files_edited_between_builds"] {
         if counters.get(p) == 0 {
             eprintln!("harness error: reach probe {p} stayed at zero");
             exit = exit.max(2);
@@ -505,7 +551,7 @@ fn main() {
         level: "exploration".into(),
         evaluations: n as u64,
         distinct_nontrivial: distinct.len() as u64,
-        rule: "seeded file sets (shape-library projects, or 1-3 of the repository's testcases/veryl files) x capture context (0-3 filler files first, seeded order) x restore context (0-3 fillers, seeded order, seeded restore subset, 1 in 4 on a long-lived thread that analysed and dropped the files before); restoring context vs all-parsed context: byte-equal dumps of symbol table, scope tokens, owned scopes, type dag, file dag, attribute and unsafe tables (fresh threads), equal post-pass1 and pass2 diagnostics, equal emitted code of the parsed files. A capture refusal or a clean restore failure is the allowed outcome. distinct_nontrivial = distinct scenarios with at least one restored fragment and a context that differs between capture and restore".into(),
+        rule: "seeded file sets (shape-library projects, or 1-3 of the repository's testcases/veryl files) x capture context (0-3 filler files first, seeded order) x restore context (0-3 fillers, seeded order, seeded restore subset, 1 in 4 on a long-lived thread that analysed and dropped the files before; 1 in 3 with some files removed from the project, each shape-library file edited to another variant with probability 1/3 - removed and edited files are never restored); restoring context vs all-parsed context: byte-equal dumps of symbol table, scope tokens, owned scopes, type dag, file dag, attribute and unsafe tables (fresh threads), equal post-pass1 and pass2 diagnostics, equal emitted code of the parsed files. A capture refusal or a clean restore failure is the allowed outcome. distinct_nontrivial = distinct scenarios with at least one restored fragment and a context that differs between capture and restore".into(),
         samples,
         extra,
         assumptions: vec!["the input dimension (all declaration kinds) is sampled by the shape library and testcases/veryl, not explored; the history/ID-offset dimension is what this check explores".into()],
